@@ -23,11 +23,63 @@ def getDesc (j : Json) : Except String Desc := do
   | "cascade" => pure (.cascade (← nat "n"))
   | "resample" => pure (.resample (← nat "order") (← getRat (← field j "step")))
   | "smix" => pure (.smix (← getRat (← field j "delta")))
+  | "resampleTV" => pure (.resampleTV (← nat "order") (← getList getRat (← field j "steps")))
   | _ => throw s!"C02: unknown stage model {m}"
 
 /-- number of outputs of a chain on a finite source of `n` items consumed to its end -/
 def chainOutLen (ds : List Desc) (n : Nat) : Nat :=
   ((buildChain ds).st.run (List.replicate n ())).length
+
+/-- how an auxiliary source (a stream-valued parameter) of stage `stage` is read -/
+inductive AuxRule where
+  | lockstep                 -- one value per item of the stage's main input (pair source)
+  | lag1                     -- `resample` step stream: the value is read after the yield
+  | event (delta : Rat)      -- data of a Streamix event with absolute time `delta`
+  | never                    -- a stream appended AFTER the main source: not touched while that lasts
+
+structure AuxDecl where
+  stage : Nat
+  rule : AuxRule
+
+def getAux (j : Json) : Except String AuxDecl := do
+  let st ← getNat (← field j "stage")
+  let r ← getStr (← field j "rule")
+  match r with
+  | "lockstep" => pure ⟨st, .lockstep⟩
+  | "lag1" => pure ⟨st, .lag1⟩
+  | "event" => pure ⟨st, .event (← getRat (← field j "delta"))⟩
+  | "never" => pure ⟨st, .never⟩
+  | _ => throw s!"C02: unknown auxiliary rule {r}"
+
+/-- pull counter of the auxiliary source after the owning stage has delivered `out` outputs,
+    read off the protocol run `P` of the auxiliary-source view of that stage -/
+def auxAt (P : List Nat) (out : Nat) : Nat := if out = 0 then 0 else P.getD (out - 1) 0
+
+/-- MODEL: the generator protocol on the auxiliary-source view of the stage -/
+def auxModel (d : Option Desc) (a : AuxRule) (ins outs : List Nat) : List Nat :=
+  let M := outs.foldl max 0
+  match a with
+  | .lockstep => ins
+  | .lag1 =>
+    let P := match d with
+      | some (.resampleTV order steps) => (rsStepS order).pulls steps M
+      | _ => (padS [()] [] : Stage Unit Unit Unit).pulls (List.replicate M ()) M
+    outs.map (auxAt P)
+  | .event delta =>
+    let P := (smixS delta ()).pulls (List.replicate M ()) M
+    outs.map (auxAt P)
+  | .never =>
+    -- `padS pre post`: the appended items are the epilogue, which runs when the source has ended;
+    -- the protocol counter of the main input is the only counter that moves before
+    outs.map (fun _ => (padS ([] : List Unit) []).start.nread)
+
+/-- SPEC: the closed forms -/
+def auxSpec (a : AuxRule) (ins outs : List Nat) : List Nat :=
+  match a with
+  | .lockstep => ins
+  | .lag1 => outs.map auxNeedLag1
+  | .event delta => outs.map (auxNeedEvent delta)
+  | .never => outs.map (fun _ => 0)
 
 def handle (entry : String) (j : Json) : Except String Json := do
   match entry with
@@ -48,11 +100,27 @@ def handle (entry : String) (j : Json) : Except String Json := do
     -- spec: closed forms, composed
     let specLevels := (List.range d).map fun i =>
       (List.range K).map fun k => needOfChain (ds.drop i) (k + 1)
+    -- auxiliary sources: pull counters after each next(), model (protocol) and spec (closed form)
+    let auxs ← match optField j "aux" with
+      | some a => getList getAux a
+      | none => pure []
+    if auxs.any (fun a => a.stage ≥ d) then throw "C02: auxiliary source of a stage outside the chain"
+    let countTo (m : Nat) := (List.range m).map (· + 1)
+    let auxM := auxs.map fun a =>
+      let ins := levels.getD a.stage []
+      let outsL := if a.stage + 1 < d then levels.getD (a.stage + 1) [] else countTo outs
+      auxModel ds[a.stage]? a.rule ins outsL
+    let auxS := auxs.map fun a =>
+      let ins := specLevels.getD a.stage []
+      let outsL := if a.stage + 1 < d then specLevels.getD (a.stage + 1) [] else countTo K
+      auxSpec a.rule ins outsL
     pure <| Json.mkObj [
       ("construct", natToJson (buildChain ds).st.start.nread),
       ("model", arr nats levels), ("outs", natToJson outs),
       ("spec", arr nats specLevels), ("need", natToJson (needOfChain ds K)),
-      ("spec0", natToJson (needOfChain ds 0))]
+      ("spec0", natToJson (needOfChain ds 0)),
+      ("aux_model", arr nats auxM), ("aux_spec", arr nats auxS),
+      ("aux_need", nats (auxS.map fun l => l.getLast?.getD 0))]
   | "take" =>
     let n ← getNat (← field j "n")
     let len ← getNat (← field j "len")
